@@ -352,7 +352,19 @@ func (s *Sched) acquire(owner any, kind string, obj any) {
 	if !s.active {
 		return
 	}
-	t := s.lookup(owner, true, "auto:acquire:"+kind)
+	t := s.lookup(owner, false, "")
+	if t == nil {
+		// a helper goroutine (errgroup, callback) of the task released right now takes the lock on its behalf:
+		// the task itself is blocked waiting for the helper
+		s.mu.Lock()
+		if c := s.current; c != nil && c.state == tsRunning {
+			t = c
+		}
+		s.mu.Unlock()
+	}
+	if t == nil {
+		t = s.lookup(owner, true, "auto:acquire:"+kind)
+	}
 	if t == nil {
 		return
 	}
@@ -392,9 +404,7 @@ func (s *Sched) release(owner any, kind string, obj any) {
 	s.mu.Lock()
 	if li := s.locks[key]; li != nil && (t == nil || li.holder == t) {
 		delete(s.locks, key)
-		if t != nil {
-			delete(t.held, key)
-		}
+		delete(li.holder.held, key) // released by the holder or by a helper goroutine on its behalf
 	}
 	s.mu.Unlock()
 }
@@ -405,7 +415,13 @@ func (s *Sched) access(owner any, obj string, write bool) {
 	}
 	t := s.lookup(owner, false, "")
 	if t == nil {
-		return
+		// a helper goroutine (an errgroup or bus callback) works on behalf of the task that is released right now
+		s.mu.Lock()
+		t = s.current
+		s.mu.Unlock()
+		if t == nil || t.state != tsRunning {
+			return
+		}
 	}
 	site := callSite(4)
 	s.checkHeld(t, "access "+obj)
